@@ -48,7 +48,7 @@ def describe_tasks(chain, data, spec):
         if d['persist']:
             dobj = t._data_without_value
             exp['run_info'] = str(dobj.run_info_path.relative_to(data)); exp['log'] = str(dobj.log_path.relative_to(data))
-        tasks.append({'fullname': d['fullname'], 'slug': d['slug'], 'ns': d['ns'], 'params': d['params'], 'ext': EXT.get(kind),
+        tasks.append({'fullname': d['fullname'], 'slug': d['slug'], 'cls': d['cls'], 'ns': d['ns'], 'params': d['params'], 'ext': EXT.get(kind),
                       'persist': d['persist'], 'inputs': [[n, x['task']] for n, x in d['inputs'] if 'task' in x],
                       'config': d['config'], 'expect': exp, 'name': d['name']})
     return tasks
@@ -75,6 +75,13 @@ def check_model(ctx, label, spec, tasks, results):
         nontrivial = bool(t['inputs']) or mo.get('registry') != 'None'
         ctx.case(case, nontrivial=nontrivial)
         exp = t['expect']
+        # the task name and group come from the class (Meta.name / class name; Meta.task_group / module for ModuleTask): computed here
+        # from the spec, not taken from the implementation
+        cspec = [c for cid, c in spec.get('classes', {}).items() if pl.pyname(cid) == t.get('cls')]
+        if cspec and spec.get('module'):
+            want_slug = gen.slug_of(cspec[0], spec['module'])
+            if want_slug != t['slug']:
+                ctx.diverge(f'{label}:task-name-and-group', case, t['slug'], want_slug); return False
         key = model_key(spec, t, mo)
         if mode != 'param':
             ctx.count(f'{label}:name-mode-dotted' if '.' in key else f'{label}:name-mode-plain')
